@@ -413,6 +413,9 @@ def run(ctx) -> None:
     ctx.rule("C19.R3-sections", "status/output section writers and readers use the same keys")
     ctx.rule("C19.R5-writer-total", "a converter writes its key for every value that is not None: the only value tests that may "
                                     "select an arm without the key are 'is None' / 'is not None' (0, False, '' and [] are values)")
+    ctx.rule("C19.R6-parser-is-value-transparent", "the ConfigParser subclass used for writing and reading does not transform values "
+             "or keys on the way in: no inline-comment stripping, raw (un-interpolated) reads, case-preserving option names - the "
+             "writers emit values verbatim and the format has no escaping")
     ctx.rule("C19.R4-reader-without-writer", "options parsed but never written are exactly the frozen list")
 
     m = ctx.repo.module(DOSINI)
@@ -505,6 +508,62 @@ def run(ctx) -> None:
                    "_translate_dict_to_dict applies a conversion only under the value test %s" % short(nn.test, 60),
                    construct="_translate_dict_to_dict conditional conversion")
     ctx.floor("C19.R5-writer-total", n5, 22, "writer converters")
+
+    # R6: the parser class
+    TRANSFORMING = {"inline_comment_prefixes": "text after ' ;' / ' #' inside a value is dropped when the file is read back",
+                    "interpolation": "'%(..)s' inside values is interpolated (or rejected) by configparser on read",
+                    "converters": "values are converted on read", "delimiters": "other key/value delimiters split values differently",
+                    "empty_lines_in_values": "multi-line values are cut at the first empty line"}
+    pc = m.cls("FlowConfigParser")
+    pinit = m.func("FlowConfigParser.__init__")
+    ctx.analysed(pinit)
+    set_keys = []
+    for n in ast.walk(pinit):
+        if isinstance(n, ast.Assign):
+            for t in n.targets:
+                if isinstance(t, ast.Subscript) and isinstance(t.slice, ast.Constant) and t.slice.value in TRANSFORMING:
+                    set_keys.append((t.slice.value, n))
+        if isinstance(n, ast.Call):
+            for k in n.keywords:
+                if k.arg in TRANSFORMING and not (k.arg == "interpolation" and isinstance(k.value, ast.Constant) and k.value.value is None):
+                    set_keys.append((k.arg, n))
+            if isinstance(n.func, ast.Attribute) and n.func.attr == "setdefault" and n.args and isinstance(n.args[0], ast.Constant) \
+                    and n.args[0].value in TRANSFORMING:
+                set_keys.append((n.args[0].value, n))
+    scan = ctx.repo.modules() if ctx.tier == "thorough" else [m, ctx.repo.module("python/experiment/model/conf.py")]
+    for m_ in scan:
+        if "FlowConfigParser(" not in m_.text:
+            continue
+        for c in ast.walk(m_.tree):
+            if isinstance(c, ast.Call) and (call_name(c) or "").split(".")[-1] == "FlowConfigParser":
+                for k in c.keywords:
+                    if k.arg in TRANSFORMING and not (k.arg == "interpolation" and isinstance(k.value, ast.Constant) and k.value.value is None):
+                        set_keys.append((k.arg, c))
+    for (k, node) in set_keys:
+        ctx.ob("C19.R6-parser-is-value-transparent", node, False,
+               "the parser is configured with %s: %s, while the writer emits the value verbatim - e.g. arguments 'sh -c \"a ; b\"' "
+               "reload as 'sh -c \"a'" % (k, TRANSFORMING[k]), construct="FlowConfigParser %s" % k)
+    if not set_keys:
+        ctx.ob("C19.R6-parser-is-value-transparent", pinit, True, "no value-transforming option of configparser is switched on",
+               construct="FlowConfigParser.__init__ options")
+    pget = m.func("FlowConfigParser.get")
+    ctx.analysed(pget)
+    raw_default = None
+    for a, dflt in zip(pget.args.args[-len(pget.args.defaults):], pget.args.defaults):
+        if a.arg == "raw":
+            raw_default = dflt
+    passes = any(isinstance(c, ast.Call) and last_attr(c) == "get" and any(k.arg == "raw" and isinstance(k.value, ast.Name) and k.value.id == "raw"
+                                                                         for k in c.keywords) for c in ast.walk(pget))
+    ok = isinstance(raw_default, ast.Constant) and raw_default.value is True and passes
+    ctx.ob("C19.R6-parser-is-value-transparent", pget, ok, "values are read raw by default (no %-interpolation by configparser)" if ok else
+           "FlowConfigParser.get no longer reads raw by default: '%(name)s' references inside values are interpolated or rejected by "
+           "configparser when the file is read back", construct="FlowConfigParser.get(raw=True)")
+    ox = m.functions.get("FlowConfigParser.optionxform")
+    ok = ox is not None and any(isinstance(r, ast.Return) and isinstance(r.value, ast.Name) and r.value.id == ox.args.args[1].arg
+                                for r in ast.walk(ox)) and not any(isinstance(c, ast.Call) for c in ast.walk(ox))
+    ctx.ob("C19.R6-parser-is-value-transparent", ox if ox is not None else pc, ok, "option names keep their case" if ok else
+           "option names are transformed by the parser (configparser lower-cases them by default): camelCase options and variables "
+           "change their names on reload", construct="FlowConfigParser.optionxform is the identity")
 
     # R2
     rm = m.func("Dosini._comp_resource_manager_to_str")
